@@ -36,6 +36,11 @@ CHECKS["C10"] = dict(
    text="Generated-input search against a reference implementation: statistics (all six kinds) for generated data/selection/axis/view/filter/chunk-limit combinations must equal nan-aware numpy reducers over the selected filtered values with the viewed shape minus the axes; histograms (1-d, 2-d, log, weights, reversed ranges, samples on range ends) must equal own equal-width binning with edge slack checked through cumulative counts; IndexedData statistics with selection and axis are included.",
    note="Trusted: numpy reducers and the selection mask as evaluated by glue (mask correctness is C01/C04/C08). A top-level SliceSubsetState with axis returns an undocumented compact shape, accepted when equal to the expected values on the slice; the plain-reducer corner (finite=False, no selection) is generated without NaN.",
    ref="DESIGN.md section 4 C10")
+CHECKS["C06"] = dict(
+   technique="stateful property-based testing: bounded-exhaustive and Hypothesis-generated operation histories with an invariant checked after every step",
+   text="History search with an invariant: every token sequence up to the bound and random op lists up to 40 steps (append/remove/re-append data, create/remove/edit groups, merge, clear, commands with undo/redo, save+restore) are executed on a real DataCollection; after every step each dataset must carry exactly one subset per live group, groups must list exactly those subsets, members must share state/label/style, and removed datasets/groups must keep no live membership.",
+   note="Trusted: the invariant in pbt/props/c06.py as the reading of the statement; finalisers run at fixed points (gc.collect).",
+   ref="DESIGN.md section 4 C06")
 NOT_APPLICABLE = []
 
 def main():
